@@ -217,7 +217,9 @@ func (w *worker) runSmart() {
 							case "eval":
 								d, err := sr.Evaluate()
 								evals.Add(1)
-								if err == nil {
+								// a decision below the confidence threshold is answered with "none" before the stability rule is
+								// consulted (and is not remembered): only decisions that reached that rule are collected
+								if err == nil && d.Confidence >= cons.MinConfidence {
 									modesMu.Lock()
 									evalModes[d.Mode] = true
 									modesMu.Unlock()
